@@ -460,7 +460,8 @@ func scripted(seed int64, G, total int, R, T time.Duration, procs int) {
 
 func tcpMode(seed int64, G, total int, procs int) {
 	runtime.GOMAXPROCS(procs)
-	sig := fmt.Sprintf("tcp G=%d N=%d procs=%d seed=%d", G, total, procs, seed)
+	sendLocal := seed%2 == 1
+	sig := fmt.Sprintf("tcp G=%d N=%d procs=%d send-local-address=%v seed=%d", G, total, procs, sendLocal, seed)
 	r.Crumb("C03 %s", sig)
 	s := memsock.New("tcp")
 	s.Handler = func(ev memsock.Event) {
@@ -469,7 +470,9 @@ func tcpMode(seed int64, G, total int, procs int) {
 		}
 	}
 	T := 60 * time.Millisecond
-	c, err := tun.Start(s, cfg(2*time.Millisecond, T, true))
+	tc := cfg(2*time.Millisecond, T, true)
+	tc.SendLocalAddress = sendLocal // has no meaning on TCP; must not change the TCP behaviour
+	c, err := tun.Start(s, tc)
 	if err != nil {
 		r.Violate("connect.failed", nil, map[string]interface{}{"signature": sig}, "TCP-mode connect failed: %v", err)
 		return
@@ -594,6 +597,112 @@ func reconnect(seed int64, sameChannel bool, procs int) {
 	faultsSeen["reconnects"] += int64(len(bounds))
 }
 
+// reconnectUnderLoad: senders keep sending while the gateway disconnects the
+// client at random moments (a fresh channel id per epoch). Whatever the
+// interleaving, the first request that carries a new channel carries number 0
+// and the numbers of acknowledged requests on one channel are consecutive.
+func reconnectUnderLoad(seed int64, G int, procs int) {
+	runtime.GOMAXPROCS(procs)
+	sig := fmt.Sprintf("reconnect-under-load G=%d procs=%d seed=%d", G, procs, seed)
+	r.Crumb("C03 %s", sig)
+	R, T := 2*time.Millisecond, 30*time.Millisecond
+	rng := rand.New(rand.NewSource(seed))
+	s := memsock.New("udp")
+	gw := gateway.NewGateway(s, gateway.RandomPolicy(rand.New(rand.NewSource(seed+3)), 0.08, 0.05, 0.05))
+	c, err := tun.Start(s, cfg(R, T, false))
+	if err != nil {
+		r.Violate("connect.failed", nil, map[string]interface{}{"signature": sig}, "connect failed: %v", err)
+		return
+	}
+	stop := make(chan struct{})
+	var wg sync.WaitGroup
+	for g := 0; g < G; g++ {
+		wg.Add(1)
+		go func(g int) {
+			defer wg.Done()
+			for i := 0; ; i++ {
+				select {
+				case <-stop:
+					return
+				default:
+				}
+				c.Send(g, uint32(g*100000+i+1))
+			}
+		}(g)
+	}
+	epochs := 0
+	for k := 0; k < 6; k++ {
+		time.Sleep(time.Duration(5+rng.Intn(25)) * time.Millisecond)
+		from := s.Len()
+		if !s.Deliver(&knxnet.DiscReq{Channel: gw.Channel()}) {
+			break
+		}
+		if !s.WaitTx(spec.SvcConnReq, from, 1, 5*time.Second) {
+			break
+		}
+		epochs++
+		time.Sleep(T + 10*time.Millisecond) // queued senders may each burn one timeout before the reconnect completes
+	}
+	time.Sleep(20 * time.Millisecond)
+	close(stop)
+	done := make(chan struct{})
+	go func() { wg.Wait(); close(done) }()
+	select {
+	case <-done:
+	case <-time.After(time.Duration(G+2)*T + 20*time.Second):
+		r.Violate("sender.hang", map[string]string{"workload": "reconnect-under-load"}, map[string]interface{}{"signature": sig}, "[reconnect-under-load] Sends did not return")
+		return
+	}
+	gw.Flush()
+	s.Quiesce(time.Second)
+	c.T.Close()
+	r.Eval(1)
+	r.DistinctStr(sig)
+	faultsSeen["reconnects-under-load"] += int64(epochs)
+	// per channel: the blocks in wire order
+	log := s.Log()
+	ops := tun.Ops(log)
+	byCh := map[uint8][]*tun.SendOp{}
+	var chOrder []uint8
+	for _, o := range ops {
+		atomic.AddInt64(&totalSends, 1)
+		if len(o.Frames) == 0 {
+			continue
+		}
+		if _, ok := byCh[o.Channel]; !ok {
+			chOrder = append(chOrder, o.Channel)
+		}
+		byCh[o.Channel] = append(byCh[o.Channel], o)
+	}
+	for _, ch := range chOrder {
+		blocks := byCh[ch]
+		for i := 1; i < len(blocks); i++ {
+			for j := i; j > 0 && blocks[j].Frames[0] < blocks[j-1].Frames[0]; j-- {
+				blocks[j], blocks[j-1] = blocks[j-1], blocks[j]
+			}
+		}
+		next := uint8(0)
+		for _, b := range blocks {
+			// all frames of a block carry one channel and one number
+			for _, fi := range b.Frames {
+				if log[fi].P.Channel != b.Channel || log[fi].P.Seq != b.Seq {
+					r.Violate("sender.retransmission-differs", map[string]string{"workload": "reconnect-under-load"}, map[string]interface{}{"signature": sig, "telegram": b.ID, "history": excerpt(log, ops, []uint32{b.ID})},
+						"[reconnect-under-load] the copies of telegram %d carry different channel / number (%d/%d vs %d/%d)", b.ID, log[fi].P.Channel, log[fi].P.Seq, b.Channel, b.Seq)
+					return
+				}
+			}
+			if b.Seq != next {
+				r.Violate("sender.numbering", map[string]string{"workload": "reconnect-under-load"}, map[string]interface{}{"signature": sig, "channel": ch, "telegram": b.ID, "history": excerpt(log, ops, []uint32{b.ID})},
+					"[reconnect-under-load] on channel %d telegram %d went out with sequence number %d, expected %d (numbering restarts at 0 with every newly assigned channel and advances with every acknowledged request)", ch, b.ID, b.Seq, next)
+				return
+			}
+			if b.RetIdx >= 0 && (b.OK() || b.Rejected()) {
+				next++
+			}
+		}
+	}
+}
+
 func excerptTail(log []memsock.Event, from int) []string {
 	var out []string
 	for _, e := range log[from:] {
@@ -630,6 +739,9 @@ func run(rr *mon.Run) {
 	}
 	for i := 0; i < nTCP && !r.Enough(); i++ {
 		tcpMode(seed*3000+int64(i), []int{4, 1, 8}[i%3], 400, procsList[(i+2)%4])
+	}
+	for i := 0; i < r.Pick(6, 200) && !r.Enough(); i++ {
+		reconnectUnderLoad(seed*6000+int64(i), 2+i%4, procsList[i%4])
 	}
 	for i := 0; i < nRecon && !r.Enough(); i++ {
 		reconnect(seed*4000+int64(i), i%2 == 0, procsList[(i+3)%4])
